@@ -54,7 +54,14 @@ func newSandbox(spelling int) *sandbox {
 	// the served directory is configured in different spellings of the same directory (an operator may write any of
 	// them): clean, trailing slash, "/./", "//", through a sibling and back
 	spelled := sb.root
-	switch spelling % 5 {
+	switch spelling % 6 {
+	case 5:
+		// a relative served directory (the process runs with the temp directory as its working directory)
+		if wd, err := os.Getwd(); err == nil {
+			if rel, err := filepath.Rel(wd, sb.root); err == nil && !strings.HasPrefix(rel, "..") {
+				spelled = rel
+			}
+		}
 	case 1:
 		spelled = sb.root + "/"
 	case 2:
@@ -592,7 +599,9 @@ func universeRequests(thorough bool, salt int) []fsReq {
 			fsReq{method: "PROPPATCH", path: p, fault: -1},
 			fsReq{method: "PROPPATCH", path: p, ctype: "application/xml", pf: 'm', fault: -1})
 		// COPY / MOVE
-		dests := []*string{nil, sp("/"), sp("/a"), sp("/b"), sp("/a/a"), sp("/a/b"), sp("/a/a/a"), sp("/c"), sp("/c/d"), sp("/b/"), sp("http://other.example/b"), sp("b"), sp("/%zz"), sp("/a%2Fb"), sp("//host/b")}
+		dests := []*string{nil, sp("/"), sp("/a"), sp("/b"), sp("/a/a"), sp("/a/b"), sp("/a/a/a"), sp("/c"), sp("/c/d"), sp("/b/"), sp("http://other.example/b"), sp("b"), sp("/%zz"), sp("/a%2Fb"), sp("//host/b"),
+			// Destinations whose URL has an empty path
+			sp("http://example.com"), sp("?x=1"), sp("#frag"), sp("mailto:root")}
 		for _, m := range []string{"COPY", "MOVE"} {
 			for _, d := range dests {
 				for _, depth := range []string{"", "0", "1", "infinity", "x"} {
@@ -622,6 +631,12 @@ func universeRequests(thorough bool, salt int) []fsReq {
 }
 
 func famFsReq(o *Out, r *RNG, thorough bool) {
+	// the working directory is the directory the sandboxes live in, so that a served directory can be given relatively
+	if st, err := os.Stat("/dev/shm"); err == nil && st.IsDir() {
+		os.Chdir("/dev/shm")
+	} else {
+		os.Chdir(os.TempDir())
+	}
 	trees := universeTrees()
 	type result struct{ lines []string }
 	results := make([]result, len(trees))
@@ -661,7 +676,7 @@ func famFsReq(o *Out, r *RNG, thorough bool) {
 		}
 	}
 	// traversal forms and special names against a tree with content (C03 end to end, canaries outside)
-	sb := newSandbox(2)
+	sb := newSandbox(5)
 	defer sb.close()
 	tree := []fsEntry{{path: "/", dir: true}, {path: "/a", dir: true}, {path: "/a/f", content: "x"}, {path: "/root", content: "r"}}
 	sb.reset(tree)
@@ -705,10 +720,19 @@ func famFsReq(o *Out, r *RNG, thorough bool) {
 		{path: "/docs", dir: true}, {path: "/docs/..old", content: "3"}, {path: "/docs/...", dir: true}, {path: "/docs/.../in", content: "4"}, {path: "/docs/r", content: "5"},
 		{path: "/.hidden", content: "6"}, {path: "/..data", dir: true}, {path: "/..data/f", content: "7"},
 		// siblings named like the temporary files an "atomic write" would use
-		{path: "/n", content: "8"}, {path: "/n.tmp", content: "9"}, {path: "/n~", content: "10"}, {path: "/m.tmp", dir: true}, {path: "/m.part", content: "11"}, {path: "/.n.swp", content: "12"}}
+		{path: "/n", content: "8"}, {path: "/n.tmp", content: "9"}, {path: "/n~", content: "10"}, {path: "/m.tmp", dir: true}, {path: "/m.part", content: "11"}, {path: "/.n.swp", content: "12"},
+		// names that end in dots
+		{path: "/v1.", dir: true}, {path: "/v1./f", content: "13"}, {path: "/draft.", content: "14"}, {path: "/v1./etc...", content: "15"}}
 	sb.reset(tree2)
 	base2 := sxTree(sb.listing())
-	names2 := []string{"/a", "/ab", "/a.bak", "/abc", "/a/x", "/a/xy", "/docs", "/docs/..old", "/docs/...", "/docs/.../in", "/docs/..new", "/.hidden", "/..data", "/..data/f", "/.h"}
+	names2 := []string{"/a", "/ab", "/a.bak", "/abc", "/a/x", "/a/xy", "/docs", "/docs/..old", "/docs/...", "/docs/.../in", "/docs/..new", "/.hidden", "/..data", "/..data/f", "/.h", "/v1.", "/draft.", "/v1./etc..."}
+	// request paths that end in a dot or dot-dot segment (the resource is what the cleaned path names)
+	for _, p := range []string{"/a/..", "/a/../docs/..", "/docs/.../..", "/v1./.", "/a/.", "/v1./..", "/a/x/.."} {
+		for _, depth := range []string{"0", "1"} {
+			line, out := sb.do(fsReq{method: "PROPFIND", path: p, depth: depth, pf: 'a', ctype: "application/xml", fault: -1})
+			o.Emit("fs.req", line, out)
+		}
+	}
 	for _, src := range names2 {
 		for _, dst := range names2 {
 			related := src == dst || strings.HasPrefix(dst, src) || strings.HasPrefix(src, dst) || strings.Contains(src, "/..") != strings.Contains(dst, "/..")
@@ -743,6 +767,30 @@ func famFsReq(o *Out, r *RNG, thorough bool) {
 			if sxTree(sb.listing()) != base2 {
 				sb.reset(tree2)
 			}
+		}
+		// the same uploads breaking off: nothing next to the target may be touched either
+		for _, f := range []int{0, 1} {
+			line, out := sb.do(fsReq{method: "PUT", path: p, body: "v2", fault: f})
+			o.Emit("fs.req", line, out)
+			if sxTree(sb.listing()) != base2 {
+				sb.reset(tree2)
+			}
+		}
+	}
+	// aliasing: what COPY / MOVE produce must be independent of the source afterwards (and the reverse)
+	for _, hist := range [][]fsReq{
+		{{method: "PUT", path: "/a", body: "one", fault: -1}, {method: "COPY", path: "/a", dest: sp("/b"), fault: -1}, {method: "PUT", path: "/a", body: "second version", fault: -1},
+			{method: "GET", path: "/b", fault: -1}, {method: "PUT", path: "/b", body: "third", fault: -1}, {method: "GET", path: "/a", fault: -1}},
+		{{method: "MKCOL", path: "/d", fault: -1}, {method: "PUT", path: "/d/f", body: "x", fault: -1}, {method: "COPY", path: "/d", dest: sp("/c"), fault: -1},
+			{method: "PUT", path: "/d/f", body: "yy", fault: -1}, {method: "GET", path: "/c/f", fault: -1}, {method: "DELETE", path: "/d", fault: -1}, {method: "GET", path: "/c/f", fault: -1},
+			{method: "PUT", path: "/c/f", body: "", fault: -1}},
+		{{method: "PUT", path: "/a", body: "one", fault: -1}, {method: "MOVE", path: "/a", dest: sp("/b"), fault: -1}, {method: "PUT", path: "/a", body: "new", fault: -1},
+			{method: "GET", path: "/b", fault: -1}, {method: "COPY", path: "/b", dest: sp("/a"), fault: -1}, {method: "PUT", path: "/b", body: "zz", fault: 1}, {method: "GET", path: "/a", fault: -1}},
+	} {
+		sb.reset([]fsEntry{{path: "/", dir: true}})
+		for _, rq := range hist {
+			line, out := sb.do(rq)
+			o.Emit("fs.req", line, out)
 		}
 	}
 	sb.reset(tree)
